@@ -372,8 +372,9 @@ async def sum(iterable: AnyIterable[Any], start: Any = 0) -> Any:
         kind = "strings" if isinstance(start, str) else type(start).__name__
         raise TypeError(f"sum() can't sum {kind} [use .join(seq) instead]")
     total = start
-    async for item in aiter(iterable):
-        total = total + item
+    async with ScopedIter(iterable) as item_iter:
+        async for item in item_iter:
+            total = total + item
     return total
 
 
@@ -383,14 +384,16 @@ async def list(iterable: Union[Iterable[T], AsyncIterable[T]] = ()) -> List[T]:
 
     This is equivalent to ``[element async for element in iterable]``.
     """
-    return [element async for element in aiter(iterable)]
+    async with ScopedIter(iterable) as item_iter:
+        return [element async for element in item_iter]
 
 
 async def tuple(iterable: Union[Iterable[T], AsyncIterable[T]] = ()) -> Tuple[T, ...]:
     """
     Create a :py:class:`tuple` from an (async) iterable
     """
-    return (*[element async for element in aiter(iterable)],)
+    async with ScopedIter(iterable) as item_iter:
+        return (*[element async for element in item_iter],)
 
 
 async def dict(  # noqa: F811
@@ -405,7 +408,8 @@ async def dict(  # noqa: F811
     """
     if not iterable:
         return {**kwargs}
-    base_dict: Dict[Any, T] = {key: value async for key, value in aiter(iterable)}
+    async with ScopedIter(iterable) as item_iter:
+        base_dict: Dict[Any, T] = {key: value async for key, value in item_iter}
     if kwargs:
         base_dict.update(kwargs)
     return base_dict
@@ -417,7 +421,8 @@ async def set(iterable: Union[Iterable[T], AsyncIterable[T]] = ()) -> Set[T]:
 
     This is equivalent to ``{element async for element in iterable}``.
     """
-    return {element async for element in aiter(iterable)}
+    async with ScopedIter(iterable) as item_iter:
+        return {element async for element in item_iter}
 
 
 async def sorted(
@@ -451,11 +456,13 @@ async def sorted(
         # falling back on TypeError would lose the items of a one-shot iterator.
         if not isinstance(iterable, AsyncIterable):
             return _sync_builtins.sorted(iterable, reverse=reverse)
-        items: _sync_builtins.list[Any] = [item async for item in aiter(iterable)]
+        async with ScopedIter(iterable) as item_iter:
+            items: _sync_builtins.list[Any] = [item async for item in item_iter]
         items.sort(reverse=reverse)
         return items
     else:
         async_key = _awaitify(key)
-        keyed_items = [(await async_key(item), item) async for item in aiter(iterable)]
+        async with ScopedIter(iterable) as item_iter:
+            keyed_items = [(await async_key(item), item) async for item in item_iter]
         keyed_items.sort(key=lambda ki: ki[0], reverse=reverse)
         return [item for _, item in keyed_items]
